@@ -456,7 +456,7 @@ class Driver:
         name = op["op"]
         ev = dict(op=name, lay=op.get("lay", "none"), m=op.get("m", "none"), keep=bool(op.get("keep", False)),
                   f=bool(op.get("f", False)), typ=op.get("typ", "none"), cls=op.get("cls", "none"),
-                  k=op.get("k", "none"), i=int(op.get("i", 0)), refused=bool(op.get("refused", False)),
+                  k=op.get("k", "none"), i=int(op.get("i", 0)), chg=True, refused=bool(op.get("refused", False)),
                   err=False, stored=True, qok=True, frame=True, errtext="")
         before = self.content_fingerprint() if (name in ENV_OPS or ev["refused"]) else None
         try:
@@ -518,15 +518,19 @@ class Driver:
             return
         before = h(self.ph._force_constants)
         quiet(self.ph.symmetrize_force_constants, level=int(self.rng.integers(1, 3)))
-        ev["changed"] = h(self.ph._force_constants) != before
+        ev["chg"] = h(self.ph._force_constants) != before
 
     def do_SymmetrizeSG(self, op, ev):
+        before = h(self.ph._force_constants)
         quiet(self.ph.symmetrize_force_constants_by_space_group)
+        ev["chg"] = h(self.ph._force_constants) != before
 
     def do_Cutoff(self, op, ev):
         lat = self.ph._supercell.cell
         r = float(np.linalg.norm(lat, axis=1).min()) * float(self.rng.uniform(0.35, 0.6))
+        before = h(self.ph._force_constants)
         quiet(self.ph.set_force_constants_zero_with_radius, r)
+        ev["chg"] = h(self.ph._force_constants) != before
 
     def do_SetDataset(self, op, ev):
         k = self.fresh_k()
